@@ -723,9 +723,20 @@ func (h *Hub) removeSession(session Session) (removed bool) {
 		}
 	}
 	delete(h.expiredSessions, session)
-	if session, ok := session.(*ClientSession); ok {
+	switch session := session.(type) {
+	case *ClientSession:
 		delete(h.anonymousSessions, session)
 		delete(h.dialoutSessions, session)
+		delete(h.federatedSessions, session)
+	case *VirtualSession:
+		// Remove the mapping of the virtual session unless it has been
+		// replaced by a newer session with the same id already.
+		virtualSessionId := GetVirtualSessionId(session.Session(), session.SessionId())
+		if data := session.Data(); data != nil {
+			if sid, found := h.virtualSessions[virtualSessionId]; found && sid == data.Sid {
+				delete(h.virtualSessions, virtualSessionId)
+			}
+		}
 	}
 	if h.IsShutdownScheduled() && !h.hasSessionsLocked(false) {
 		go h.shutdown.Close()
